@@ -16,7 +16,7 @@ RULES = [  # (substring of the commit subject, property ids)
  ("NewSdtpEntry", "C09"), ("GetTimeCode", "C09"), ("GetSampleData", "C09"),
  ("CopySampleData", "C08"), ("ReadData/CopyData", "C08"),
  ("UpdateSidx", "C12"), ("emsg before a moof", "C12"), ("MediaSegment.Size", "C02/C12"),
- ("OptimizeTrun", "C05"), ("segment-mode re-encoding", "C12"), ("mp4ff-nallister", "C16"), ("mp4ff-pslister", "C16"),
+ ("OptimizeTrun", "C05"), ("segment-mode re-encoding", "C12"), ("mp4ff-nallister", "C16"), ("mp4ff-pslister", "C16"), ("StscBox.ChunkNrFromSampleNr panicked", "C16"), ("Fragment.GetFullSamples panicked", "C16"),
  ("first moof/emsg is not at the position", "C04/C05/C12"), ("more moof boxes than tfra entries", "C04/C12"),
 ]
 DEFAULT = "C04"
